@@ -14,6 +14,7 @@ def run(ck, fb):
     _run15(ck, fb)
     r15i(ck, fb)
     r15k(ck, fb)
+    r15l(ck, fb)
     ck.borrow('rules.c14', {'R14g': 'R15j'}, 'a refused cluster message is a lost registry / view change: the nodes cannot converge on it')
 
 
@@ -477,3 +478,41 @@ def r15k(ck, fb, R='R15k'):
     for (tag, sites, what) in (('Remove', rem, 'RemoveInstance'), ('UpdateTime', beat, 'UpdateInstanceBeat')):
         r = walk.walker(b, classify, {'tag': tag, 'inst': 'Some', 'addr': 'Some'})
         ck.require(bool(sites & r), R, 'do_notify:%s:can-send' % tag, b.where(), 'for tag %s no %s can be sent any more' % (tag, what))
+
+
+def r15l(ck, fb, R='R15l'):
+    ck.rule(R, '"a node that (re)joins receives the others\' data": snapshots and distro answers carry the instances a node holds itself '
+               '(from_cluster == 0), so a node must never store one of its own instances as a mirror of itself. An instance that comes back from a peer '
+               'with from_cluster == this node\'s id (a console update of a gRPC instance applied on the owner of the service and broadcast from '
+               'there) keeps its holder: NamingActor::update_instance compares the incoming from_cluster with self.node_id and, on the equal edge, '
+               'stores origin 0. Otherwise the holder marks its own gRPC instance as foreign, every node treats it as somebody else\'s, and no '
+               'snapshot or distro answer contains it any more')
+    b = ck.body(NA + 'update_instance', R)
+    if not b:
+        return
+    zero = []
+    for x in util.region(fb, b, 1):
+        for (o, f, bb, st) in x.field_writes():
+            if f != 'from_cluster' or not o.endswith('naming::model::Instance'):
+                continue
+            rv = st['rv']
+            from rn.facts import op_const
+            c = op_const(rv['op']) if rv['k'] == 'use' else None
+            if c is not None and str(c.get('v')) == '0':
+                zero.append((x, bb))
+    ck.floor(R, 'assignments from_cluster = 0 in update_instance', len(zero), 1)
+    ok = False
+    for (x, bb) in zero:
+        for a in cfg.guard_atoms(x, bb):
+            if a[0] == 'cmp' and a[1] == 'Eq' and a[4] is True:
+                fs = set()
+                for d in (a[2], a[3]):
+                    d = cfg.strip_calls(x, d) if d['k'] == 'call' else d
+                    if d['k'] == 'place':
+                        fs.add(d['fields'][-1])
+                if {'from_cluster', 'node_id'} <= fs:
+                    ok = True
+    ck.require(ok, R, 'update_instance:own-instance-keeps-origin-0', b.where(),
+               'update_instance never recognises an incoming copy of an instance this node holds itself (from_cluster == self.node_id): the copy is stored '
+               'with the node\'s own id as foreign origin, and build_snapshot_data / build_distro_instances (which skip is_from_cluster()) leave the instance '
+               'out for ever', 'from_cluster == node_id is recognised and stored as own')
